@@ -330,7 +330,7 @@ CHECKS = {"C08.history": check_history}
 
 
 def known_witnesses():
-    """minimal hand-written witnesses of the three known defect families: True = still fails on the current tree."""
+    """minimal hand-written witnesses of the known defect families: True = still fails on the current tree."""
     out = {}
     U = [block_from_spec(s) for s in U_SPEC]
     # K1: add(dup, fail_on_duplicate_key=True) raises after appending the wrapper
@@ -357,6 +357,11 @@ def known_witnesses():
         out["F11b-replace-reorders"] = True
     except ValueError:
         out["F11b-replace-reorders"] = not (list(lib.strings_dict) == ["k", "j"] and _same(lib.strings, [U[3], U[5]]) and _same(lib.blocks, [U[3], U[5]]))
+    # N8 (found by this module, not in the README table): a *successful* replace moves the string to the end of the strings view
+    lib = Library()
+    lib.add([U[3], U[5]])
+    lib.replace(U[3], U[4])
+    out["N8-replace-success-reorders-strings"] = not (_same(lib.blocks, [U[4], U[5]]) and _same(lib.strings, [U[4], U[5]]))
     return out
 
 
